@@ -122,9 +122,21 @@ fn number_arith(a: Number, b: Number, rec: &mut Rec) -> Verdict {
                 }
                 rec.class(&format!("number:{op}:different-units-rejected"));
             }
-            _ => {
-                // one side without unit: the statement leaves it open
-                rec.class(&format!("number:{op}:one-side-unitless(unasserted)"));
+            (x, y) => {
+                // one side without a unit: whether that is accepted is left open, but an accepted sum is a quantity in
+                // the one unit in play - it neither loses the unit nor depends on which side carried it
+                match res {
+                    Ok(n) => {
+                        if n.unit != x.or(y) {
+                            return Verdict::fail(format!("C16:number:{op}:unit-lost-with-a-bare-operand"), format!("{ctx} -> unit {:?}, the only unit in play is {:?}", n.unit.map(|u| u.name()), x.or(y).map(|u| u.name())));
+                        }
+                        if !(n.value == want || (n.value.is_nan() && want.is_nan())) {
+                            return Verdict::fail(format!("C16:number:{op}:value"), format!("{ctx} -> {} expected {want}", n.value));
+                        }
+                        rec.class(&format!("number:{op}:one-side-unitless:accepted"));
+                    }
+                    Err(_) => rec.class(&format!("number:{op}:one-side-unitless:rejected")),
+                }
             }
         }
     }
@@ -239,7 +251,7 @@ fn check_arith(c: &Arith, rec: &mut Rec) -> Verdict {
 }
 
 pub fn run(ctx: &mut Ctx) {
-    ctx.rule("enumerated exhaustively: all ordered pairs of database units x 7 magnitudes: convert_to is Ok iff units.txt gives both the same dimension vector, equals ((x*sa+oa)-ob)/sb within 1e-9 relative to the operands, and converts back to x; a*b and a/b: when Ok the result is a database unit with dimension = sum/difference and scale within 1e-3 of product/quotient; generated: pairs of Numbers over all units: + and - keep the common unit and the exact sum/difference, fail for two different units (one side unit-less unasserted), * and / agree with the unit operators; non-trivial: different units of one dimension / Ok product or quotient / generated Number pair; distinct by names");
+    ctx.rule("enumerated exhaustively: all ordered pairs of database units x 7 magnitudes: convert_to is Ok iff units.txt gives both the same dimension vector, equals ((x*sa+oa)-ob)/sb within 1e-9 relative to the operands, and converts back to x; a*b and a/b: when Ok the result is a database unit with dimension = sum/difference and scale within 1e-3 of product/quotient; generated: pairs of Numbers over all units: + and - keep the common unit and the exact sum/difference, fail for two different units (with one bare operand: if accepted, the result carries the one unit in play and the exact value), * and / agree with the unit operators; non-trivial: different units of one dimension / Ok product or quotient / generated Number pair; distinct by names");
     ctx.assume("dimension, scale and offset come from unit-gen/units.txt, not from the table under test; tolerance 1e-9 relative is ~7 orders above the worst rounding observed");
     enumerate(ctx);
     let n = unit_table().len();
